@@ -7,7 +7,6 @@ import (
 	"strings"
 
 	"olsim/core"
-	"olsim/gen"
 )
 
 // C08 Crash-restart equivalence.
@@ -100,9 +99,13 @@ func init() {
 			"Oracles: Info after reopen == victim's own last completed commit; handshake completes; every (re)executed block attempt equals the reference's results (code, data, gas, events of every transaction; validator updates; app hash); victims reach the tip once faults stop. " +
 			"Non-trivial: >=1 crash strictly inside a block followed by a handshake replay of a block with >=1 successful transaction; distinct = distinct fingerprints.",
 		MakeSetup: func(rng *rand.Rand, tier string, seed uint64) *Setup {
-			k := SwarmKnobs(rng)
-			k.MaxGas = drawMaxGas(rng)
-			su := &Setup{Knobs: k, Sess: gen.NewSession()}
+			nb := 12 + rng.Intn(25)
+			if tier == "thorough" {
+				nb = 15 + rng.Intn(50)
+			}
+			su := drawWorkload(rng, tier, seed, 3, nb)
+			su.Knobs.MaxGas = drawMaxGas(rng)
+			k := su.Knobs
 			nv := 1 + rng.Intn(3)
 			su.Replicas = append(su.Replicas, core.ReplicaConf{Identity: "x0", Quiet: true, Recent: 10, Every: 100, Cycles: 10, WitnessInitEarly: true})
 			for i := 0; i < nv; i++ {
@@ -118,16 +121,11 @@ func init() {
 				rc.Recent, rc.Every, rc.Cycles = drawRotation(rng)
 				su.Replicas = append(su.Replicas, rc)
 			}
-			su.Gens = allGens(rng)
-			su.Blocks = 12 + rng.Intn(25)
-			if tier == "thorough" {
-				su.Blocks = 15 + rng.Intn(50)
-			}
 			su.MaxTx = 10
 			rate := []float64{0.01, 0.02, 0.04}[rng.Intn(3)]
 			su.Policy = &NoisePolicy{Rng: rng, Sess: su.Sess, CheckRate: 0.02, CrashRate: rate, ReplayCrashRate: rate * 2, MaxCrashes: 12}
 			su.Between = RestartAndJoinBetween(0.6, 0.03, nv+3, k.NumValidators)
-			su.PlanHook = AbsentHook(0.05)
+			su.PlanHook = chainPlan(su.PlanHook, AbsentHook(0.05))
 			return su
 		},
 		MakeOracle: func(e *core.Engine, tr *core.Trace) Oracle {
